@@ -555,8 +555,10 @@ class Run(object):
             if not rejected:
                 stats.probe("bad_url_accepted_by_stem_function")
                 return
-            # a failed set stores nothing: live iterators stay judged; the caller
-            # may retry the very same call at once, or ask for a match of that URL
+            # the caller may retry the very same call at once, or ask for a match of
+            # that URL; like any mutating call, a failing one ends the judging of
+            # live iterators
+            self.mutation_begins()
             for attempt in range(1 + ev.get("retry", 0)):
                 raised = None
                 try:
@@ -590,6 +592,7 @@ class Run(object):
             # fail and store nothing (len included)
             stems = list(ev["stems"])
             k = min(ev.get("k", 0), len(stems))
+            self.mutation_begins()
             for attempt in range(1 + ev.get("retry", 0)):
                 bad = stems[:k] + [["unhashable"]] + stems[k:]
                 raised = None
